@@ -30,11 +30,14 @@ type controllingSelector struct {
 	agent         *Agent
 	nominatedPair *CandidatePair
 	log           logging.LeveledLogger
+	// lastRenomination is the highest nomination value whose success response was applied.
+	lastRenomination *uint32
 }
 
 func (s *controllingSelector) Start() {
 	s.startTime = time.Now()
 	s.nominatedPair = nil
+	s.lastRenomination = nil
 }
 
 func (s *controllingSelector) isNominatable(c Candidate) bool {
@@ -204,9 +207,17 @@ func (s *controllingSelector) HandleSuccessResponse(
 		// If this is a renomination request (has nomination value), always update the selected pair
 		// If it's a standard nomination (no value), only set if no pair is selected yet
 		if pendingRequest.nominationValue != nil {
-			s.log.Infof("Renomination success response received for pair %s (nomination value: %d), switching to this pair",
-				pair, *pendingRequest.nominationValue)
-			s.agent.setSelectedPair(pair)
+			// Last nomination wins: responses can overtake each other, so a response to an
+			// older renomination must not undo a newer one that was already applied.
+			if s.lastRenomination == nil || *pendingRequest.nominationValue > *s.lastRenomination {
+				s.log.Infof("Renomination success response received for pair %s (nomination value: %d), switching to this pair",
+					pair, *pendingRequest.nominationValue)
+				s.lastRenomination = pendingRequest.nominationValue
+				s.agent.setSelectedPair(pair)
+			} else {
+				s.log.Tracef("Ignore success response for superseded renomination %d (current is %d)",
+					*pendingRequest.nominationValue, *s.lastRenomination)
+			}
 		} else if selectedPair == nil {
 			s.agent.setSelectedPair(pair)
 		}
